@@ -1,3 +1,127 @@
 import GnpyModel
-/- Property theorems for C14 (only the property theorems and their non-vacuity examples live here;
-   helper lemmas go to GnpyProofs/Lemmas). -/
+import GnpyProofs.Lemmas.SlotsStep
+/- Property theorems for C14 — spectrum assignment never double-books a slot and honours what the user fixed.
+   Model: GnpyModel/Slots.lean (`step` = one iteration of `pth_assign_spectrum`, `run` = a history of calls).
+   Helper lemmas: GnpyProofs/Lemmas/{PyList,Slots,SlotsStep}.lean. -/
+namespace Gnpy.Slots
+open Gnpy.Py
+
+/-- **A blocked (or skipped) request changes no spectrum state** – neither the maps nor the service bookkeeping of any
+    OMS; holds for every state, well formed or not. -/
+theorem step_blocked_unchanged (pol : Policy) (s s' : List Oms) (r : Request) (o : Outcome)
+    (h : step pol s r = .ok (s', o)) (ho : ∀ nm, o ≠ Outcome.accepted nm) : s' = s := by
+  unfold step at h
+  split at h
+  · simp only [pure, Except.pure, Except.ok.injEq, Prod.mk.injEq] at h
+    exact h.1.symm
+  · simp only [bind, Except.bind] at h
+    cases h1 : slotsVsBandwidth r.pathBandwidth r.spacing r.bitRate with
+    | error e => rw [h1] at h; cases h
+    | ok nr =>
+      rw [h1] at h
+      simp only at h
+      cases h2 : slotsVsBandwidth r.bitRate r.spacing r.bitRate with
+      | error e => rw [h2] at h; cases h
+      | ok pc =>
+        rw [h2] at h
+        simp only at h
+        cases h3 : reservedShort r.entries pc.2 nr.1 with
+        | error e => rw [h3] at h; cases h
+        | ok blk =>
+          rw [h3] at h
+          cases blk with
+          | true =>
+            simp only [if_true, pure, Except.pure, Except.ok.injEq, Prod.mk.injEq] at h
+            exact h.1.symm
+          | false =>
+            simp only [Bool.false_eq_true, if_false] at h
+            cases h4 : computeNM nr.2 r.entries r.pathOms s pc.2 pol with
+            | error e => rw [h4] at h; cases h
+            | ok sr =>
+              rw [h4] at h
+              simp only at h
+              split at h
+              · simp only [pure, Except.pure, Except.ok.injEq, Prod.mk.injEq] at h
+                exact h.1.symm
+              · cases h5 : applyPath sr.1 r.id nr.1 r.pathOms s with
+                | error e => rw [h5] at h; cases h
+                | ok s1 =>
+                  rw [h5] at h
+                  simp only [pure, Except.pure, Except.ok.injEq, Prod.mk.injEq] at h
+                  exact absurd h.2.symm (ho _)
+
+/-- **Every granted slot range was free on every OMS of the route (both directions), inside the guard-band limits and
+    the bounds of each of those maps, and has positive width.** -/
+theorem step_accept_free (pol : Policy) (s s' : List Oms) (r : Request) (out : List (Int × Int)) (hs : StateWF s)
+    (hnd : r.pathOms.Nodup) (h : step pol s r = .ok (s', Outcome.accepted out)) :
+    ∀ nm ∈ out, 0 < nm.2 ∧ ∀ k ∈ r.pathOms, ∃ o, s[k]? = some o ∧ RangeOK o.bm nm.1 nm.2 ∧
+      o.bm.nMin < nm.1 - nm.2 ∧ nm.1 + nm.2 - 1 ≤ o.bm.nMax := by
+  obtain ⟨nbWl, requiredM, pcm, t, sel, _, a1, a2, a3, _, _, _⟩ := step_accepted_spec pol s s' r out hs hnd h
+  obtain ⟨_, hwf, c1, c2, c3⟩ := aggregate_spec s hs _ t a1
+  obtain ⟨_, b2, _, _⟩ := nmLoop_spec pcm pol _ t requiredM sel _ hwf a2
+  intro nm hnm
+  obtain ⟨d1, ⟨d2, d3, d4⟩, d5, d6⟩ := b2 nm (a3.mem_iff.1 hnm)
+  refine ⟨d1, ?_⟩
+  intro k hk
+  obtain ⟨o, ho⟩ := c1 k hk
+  obtain ⟨e1, e2, e3, e4⟩ := c2 k hk o ho
+  obtain ⟨g1, g2⟩ := hs.guard o (List.mem_of_getElem? ho)
+  refine ⟨o, ho, ⟨by omega, by omega, ?_⟩, by omega, by omega⟩
+  intro x hx1 hx2
+  exact (c3 x).1 (d4 x hx1 hx2) k hk o ho
+
+/-- the slot ranges given to one request do not overlap each other -/
+theorem step_slots_disjoint (pol : Policy) (s s' : List Oms) (r : Request) (out : List (Int × Int)) (hs : StateWF s)
+    (hnd : r.pathOms.Nodup) (h : step pol s r = .ok (s', Outcome.accepted out)) : out.Pairwise Disj := by
+  obtain ⟨nbWl, requiredM, pcm, t, sel, _, a1, a2, a3, _, _, _⟩ := step_accepted_spec pol s s' r out hs hnd h
+  obtain ⟨_, hwf, _, _, _⟩ := aggregate_spec s hs _ t a1
+  obtain ⟨_, _, b3, _⟩ := nmLoop_spec pcm pol _ t requiredM sel _ hwf a2
+  exact a3.symm.pairwise b3 (fun hh => Disj.symm hh)
+
+/-- **The new state is the old one with exactly `[N−M, N+M−1]` of every granted pair marked occupied on exactly the
+    OMS of the route** (`Oms.served`: same marks on every OMS of the route — "identical on every OMS of the path");
+    every other OMS is untouched. -/
+theorem step_marks_exactly (pol : Policy) (s s' : List Oms) (r : Request) (out : List (Int × Int)) (hs : StateWF s)
+    (hnd : r.pathOms.Nodup) (h : step pol s r = .ok (s', Outcome.accepted out)) :
+    s'.length = s.length ∧ (∀ k, k ∉ r.pathOms → s'[k]? = s[k]?) ∧
+    ∃ nb, ∀ k ∈ r.pathOms, ∃ o, s[k]? = some o ∧ s'[k]? = some (o.served out r.id nb) := by
+  obtain ⟨nbWl, _, _, _, _, _, _, _, _, _, _, a7⟩ := step_accepted_spec pol s s' r out hs hnd h
+  obtain ⟨b1, b2, b3⟩ := applyPath_spec out r.id nbWl _ s s' hnd hs.wf a7
+  refine ⟨b1, b2, nbWl, ?_⟩
+  intro k hk
+  obtain ⟨o, h1, h2, _⟩ := b3 k hk
+  exact ⟨o, h1, h2⟩
+
+/-- what `served` means slot by slot: a slot covered by a granted range becomes occupied, every other slot keeps its
+    value (in particular unusable stays unusable, nothing is ever freed) -/
+theorem served_cellAt (o : Oms) (sel : List (Int × Int)) (id : String) (nb : Int) (x : Int) :
+    (o.served sel id nb).bm.cellAt x = (o.bm.cellAt x).map (fun c => if covers sel x then Cell.occupied else c) :=
+  Bitmap.cellAt_markAll sel o.bm x
+
+/-- **same_on_all_oms**: the assignment is identical on every OMS of the route: the cells that change are given by the
+    one list `out`, whatever the OMS -/
+theorem same_on_all_oms (pol : Policy) (s s' : List Oms) (r : Request) (out : List (Int × Int)) (hs : StateWF s)
+    (hnd : r.pathOms.Nodup) (h : step pol s r = .ok (s', Outcome.accepted out)) :
+    ∀ k ∈ r.pathOms, ∃ o o', s[k]? = some o ∧ s'[k]? = some o' ∧
+      ∀ x, o'.bm.cellAt x = (o.bm.cellAt x).map (fun c => if covers out x then Cell.occupied else c) := by
+  obtain ⟨_, _, nb, h3⟩ := step_marks_exactly pol s s' r out hs hnd h
+  intro k hk
+  obtain ⟨o, h1, h2⟩ := h3 k hk
+  exact ⟨o, _, h1, h2, fun x => served_cellAt o out r.id nb x⟩
+
+/-- **enough_slots**: the granted widths add up to at least the slots needed for the requested bandwidth
+    (`ceil(spacing / 12.5 GHz) · ceil(path_bandwidth / bit_rate)`) -/
+theorem enough_slots (pol : Policy) (s s' : List Oms) (r : Request) (out : List (Int × Int)) (hs : StateWF s)
+    (hnd : r.pathOms.Nodup) (h : step pol s r = .ok (s', Outcome.accepted out)) :
+    r.bitRate ≠ 0 ∧
+    ceilDiv r.spacing slotWidthHz * ceilDiv r.pathBandwidth r.bitRate ≤ sumInt (out.map (·.2)) := by
+  obtain ⟨nbWl, requiredM, _, _, _, a0, _, _, _, _, a6, _⟩ := step_accepted_spec pol s s' r out hs hnd h
+  unfold slotsVsBandwidth at a0
+  split at a0
+  · cases a0
+  · next hb =>
+    simp only [pure, Except.pure, Except.ok.injEq, Prod.mk.injEq] at a0
+    refine ⟨hb, ?_⟩
+    rw [a0.2]; exact a6
+
+end Gnpy.Slots
